@@ -7,7 +7,7 @@
    record still in the buffer is canonically spelled.  `erase` blanks written bytes: values are compared on every
    file, written bytes on canonically spelled files (C04 owns pass-through of other spellings). *)
 From Coq Require Import ZArith List Bool.
-From BNP Require Import Base.Prims Model.C05 Proofs.C05 Gen.C05 Bridge.C05.
+From BNP Require Import Base.Prims Model.C05 Proofs.C05 Proofs.C05_b Gen.C05 Bridge.C05.
 Open Scope nat_scope.
 Import ListNotations.
 
@@ -138,6 +138,73 @@ Theorem C05_noncanonical_write_differs :
     m_run l_concat_pinned F hdr (start recs) prog <> s_run F hdr [rows_of_file F recs; rows_of_file F recs] prog.
 Proof. exact noncanonical_write_differs. Qed.
 Print Assumptions C05_noncanonical_write_differs.
+
+(* ======== phase 3: the eager side ========
+   e_run is the EAGER implementation as it is at HEAD: the Spec's row lists, except that only the table returned by
+   read() still has the file's header context (every derived table has lost it), that the VCF writer refuses a table
+   read from a file with header lines and emits a default header for a table without context. *)
+
+(* the eager implementation IS the Spec when the file has no header lines and the writer has no default header *)
+Theorem C05_eager_is_spec :
+  forall F hdr prog regs,
+    eager_guard F hdr = true -> e_run F hdr regs prog = s_run F hdr (map fst regs) prog.
+Proof. exact eager_is_spec. Qed.
+Print Assumptions C05_eager_is_spec.
+
+(* THE PROPERTY on the two models of the code at HEAD: a lazily read table and the eagerly parsed table of the same
+   well-formed file give equal observations under every program (equal values; equal written bytes when the file is
+   canonically spelled), under exactly the guards that exclude the listed findings *)
+Theorem C05_lazy_is_eager_partial :
+  forall F hdr recs prog ctx,
+    Forall (fun r => length (r_fields r) = nfields F) recs ->
+    m_guard_fixed_run l_concat F hdr (start recs) prog = true ->
+    eager_guard F hdr = true ->
+    let lazy_obs := m_run l_concat F hdr (start recs) prog in
+    let eager_obs := e_run F hdr [(rows_of_file F recs, ctx); (rows_of_file F recs, ctx)] prog in
+    map erase lazy_obs = map erase eager_obs
+    /\ (Forall (fun r => rec_canon F r = true) recs -> lazy_obs = eager_obs).
+Proof. exact lazy_is_eager_partial. Qed.
+Print Assumptions C05_lazy_is_eager_partial.
+
+(* witnesses for the guards (one per listed finding that is not already witnessed above) *)
+Theorem C05_eager_header_lost_refuted :        (* C05-header-lost-on-derived-eager-table *)
+  exists F hdr recs prog ctx, wf F recs /\
+    e_run F hdr [(rows_of_file F recs, ctx); (rows_of_file F recs, ctx)] prog
+    <> s_run F hdr [rows_of_file F recs; rows_of_file F recs] prog.
+Proof. exact eager_header_lost_refuted. Qed.
+Print Assumptions C05_eager_header_lost_refuted.
+Theorem C05_eager_write_fails_refuted :        (* C05-vcf-eager-write-with-header *)
+  exists F hdr recs prog ctx, wf F recs /\
+    map erase (e_run F hdr [(rows_of_file F recs, ctx); (rows_of_file F recs, ctx)] prog)
+    <> map erase (s_run F hdr [rows_of_file F recs; rows_of_file F recs] prog).
+Proof. exact eager_write_fails_refuted. Qed.
+Print Assumptions C05_eager_write_fails_refuted.
+Theorem C05_eager_default_header_refuted :     (* header-less VCF: derived eager table gets a default header *)
+  exists F hdr recs prog ctx, wf F recs /\ hdr = [] /\
+    e_run F hdr [(rows_of_file F recs, ctx); (rows_of_file F recs, ctx)] prog
+    <> s_run F hdr [rows_of_file F recs; rows_of_file F recs] prog.
+Proof. exact eager_default_header_refuted. Qed.
+Print Assumptions C05_eager_default_header_refuted.
+Theorem C05_at_ragged_refuted :                (* C05-int-index-ragged-column *)
+  exists F hdr recs prog, wf F recs /\
+    map erase (m_run l_concat F hdr (start recs) prog)
+    <> map erase (s_run F hdr [rows_of_file F recs; rows_of_file F recs] prog).
+Proof. exact at_ragged_refuted. Qed.
+Print Assumptions C05_at_ragged_refuted.
+
+(* the Spec's writer and reader are inverse: every table of well-kinded rows has a canonically spelled file (the one
+   s_write produces), reading it gives the table back — so the hypotheses "well-formed" and "canonically spelled" of
+   the theorems above are satisfiable for every table, and decimal printing / parsing of every integer round-trips *)
+Theorem C05_spec_roundtrip :
+  forall F (t : rows),
+    Forall (Forall2 well_kinded (f_kinds F)) t ->
+    let recs := map (rec_of_row F) t in
+    rows_of_file F recs = t
+    /\ Forall (fun r => rec_canon F r = true) recs
+    /\ Forall (fun r => length (r_fields r) = nfields F) recs
+    /\ forall hdr, s_write F hdr (rows_of_file F recs) = hdr ++ concat (map r_raw recs).
+Proof. exact spec_roundtrip. Qed.
+Print Assumptions C05_spec_roundtrip.
 
 (* ---- tie to the source: the decision rules regenerated from /repo by translate/gen_c05.py on this run (Gen/C05.v:
    the lookup order of __getattr__ and of concatenate's column(), what __getitem__ indexes and which row the scalar
